@@ -109,3 +109,77 @@ def same(a, b, rtol=0.0):
         return True
     scale = np.abs(b[~nb])
     return bool(np.all(np.abs(a[~na] - b[~nb]) <= rtol*scale))
+
+
+class RefSurvey:
+    """Record of what a survey has to report: the names, every data set, and
+    the *last explicitly assigned* noise floor / relative error / standard
+    deviation (``None`` or arrays of the data shape)."""
+
+    def __init__(self, names, data, nf=None, re=None, sd=None, geom=None):
+        self.names = [list(n) for n in names]
+        self.data = {k: np.array(v, dtype=complex) for k, v in data.items()}
+        self.geom = geom or {}
+        self.nf = setting(nf, self.shape)
+        self.re = setting(re, self.shape)
+        self.sd = setting(sd, self.shape)
+
+    @property
+    def shape(self):
+        return tuple(len(n) for n in self.names)
+
+    def snapshot(self):
+        return RefSurvey(self.names, self.data, self.nf, self.re, self.sd,
+                         self.geom)
+
+    def assign(self, which, value):
+        setattr(self, which, setting(value, self.shape))
+
+    def std(self):
+        return std_effective(self.nf, self.re, self.sd,
+                             self.data['observed'])
+
+    def indices(self, sources=None, receivers=None, frequencies=None):
+        idx = []
+        for ax, sel in enumerate((sources, receivers, frequencies)):
+            if sel is None:
+                idx.append(list(range(len(self.names[ax]))))
+            else:
+                idx.append([self.names[ax].index(n) for n in sel])
+        return idx
+
+    def take(self, idx):
+        new = RefSurvey(
+            [[self.names[ax][i] for i in idx[ax]] for ax in range(3)],
+            {k: subcube(v, idx) for k, v in self.data.items()},
+            geom=self.geom)
+        for w in ('nf', 're', 'sd'):
+            v = getattr(self, w)
+            setattr(new, w, None if v is None else subcube(v, idx))
+        return new
+
+    def select(self, sources=None, receivers=None, frequencies=None,
+               remove_empty=True):
+        new = self.take(self.indices(sources, receivers, frequencies))
+        obs = new.data['observed']
+        if remove_empty and np.isfinite(obs).any():
+            new = new.take(nonempty_indices(obs))
+        return new
+
+    def cut_mask(self, min_amplitude, min_offset, max_offset):
+        """Data removed by add_noise(min_amplitude, min_offset, max_offset);
+        'half_nf' = half the noise floor (nothing if there is none)."""
+        obs = self.data['observed']
+        if isinstance(min_amplitude, str):       # 'half_nf'
+            min_amplitude = None if self.nf is None else self.nf/2.0
+        mask = amplitude_cut(obs, min_amplitude)
+        if max_offset is None:
+            max_offset = np.inf
+        if min_offset > 0 or max_offset < np.inf:
+            g = self.geom
+            mask = mask | offset_cut(
+                [g['src'][n] for n in self.names[0]],
+                [g['rec'][n][0] for n in self.names[1]],
+                [g['rec'][n][1] for n in self.names[1]],
+                len(self.names[2]), min_offset, max_offset)
+        return mask
